@@ -140,7 +140,7 @@ def set_exceptions(fx):
 # ---------------------------------------------------------------------------
 # _write_frame (C03 wire image, C10 closed-transport gate)
 # ---------------------------------------------------------------------------
-@contract("bellows.ash.AshProtocol._write_frame", props=["C04", "C10", "C05"])
+@contract("bellows.ash.AshProtocol._write_frame", props=["C04", "C10", "C05", "C02"])
 def _(c):
     c.self(ASH)
     c.effect_name = "ash.write_frame"
@@ -160,7 +160,7 @@ def _(c):
 # ---------------------------------------------------------------------------
 # C04 receiver side
 # ---------------------------------------------------------------------------
-@contract("bellows.ash.AshProtocol._change_ack_timeout", props=["C04", "C05"])
+@contract("bellows.ash.AshProtocol._change_ack_timeout", props=["C04", "C05", "C02"])
 def _(c):
     c.self(ASH)
     c.arg("new_value", T.real)
@@ -187,7 +187,7 @@ def covered_by_ack(k, ack_num):
     return any(k == (ack_num - j) % 8 for j in range(1, ash.TX_K + 1))
 
 
-@contract("bellows.ash.AshProtocol._handle_ack", props=["C01", "C05"])
+@contract("bellows.ash.AshProtocol._handle_ack", props=["C01", "C05", "C02"])
 def _(c):
     c.self(ASH)
     c.effect_name = "ash.handle_ack"
@@ -217,7 +217,7 @@ def _(c):
     c.modifies("self._pending_data_frames.*")
 
 
-@contract("bellows.ash.AshProtocol._cancel_pending_data_frames", props=["C01", "C05", "C10"])
+@contract("bellows.ash.AshProtocol._cancel_pending_data_frames", props=["C01", "C05", "C10", "C02"])
 def _(c):
     c.self(ASH)
     c.effect_name = "ash.cancel_pending"
@@ -246,7 +246,7 @@ def _(c):
     c.modifies("self._pending_data_frames.*")
 
 
-@contract("bellows.ash.AshProtocol.data_frame_received", props=["C04", "C01"])
+@contract("bellows.ash.AshProtocol.data_frame_received", props=["C04", "C01", "C02"])
 def _(c):
     c.self(ASH)
     c.arg("frame", DataFrameT)
@@ -287,7 +287,7 @@ def _(c):
     c.modifies("self._rx_seq")
 
 
-@contract("bellows.ash.AshProtocol.rstack_frame_received", props=["C04", "C05", "C11"])
+@contract("bellows.ash.AshProtocol.rstack_frame_received", props=["C04", "C05", "C11", "C02", "C09"])
 def _(c):
     c.self(ASH)
     c.arg("frame", RStackFrameT)
@@ -299,7 +299,7 @@ def _(c):
     c.modifies("self._rx_seq", "self._tx_seq", "self._ncp_state", "self._ncp_reset_code", "self._t_rx_ack")
 
 
-@contract("bellows.ash.AshProtocol._enter_failed_state", props=["C04", "C05", "C10"])
+@contract("bellows.ash.AshProtocol._enter_failed_state", props=["C04", "C05", "C10", "C02"])
 def _(c):
     c.self(ASH)
     c.effect_name = "ash.enter_failed_state"
@@ -313,7 +313,7 @@ def _(c):
     c.modifies("self._ncp_state", "self._pending_data_frames.*")
 
 
-@contract("bellows.ash.AshProtocol.error_frame_received", props=["C04", "C05", "C10"])
+@contract("bellows.ash.AshProtocol.error_frame_received", props=["C04", "C05", "C10", "C02"])
 def _(c):
     c.self(ASH)
     c.arg("frame", ErrorFrameT)
@@ -328,7 +328,7 @@ def _(c):
     c.modifies("self._ncp_state", "self._ncp_reset_code", "self._pending_data_frames.*")
 
 
-@contract("bellows.ash.AshProtocol.ack_frame_received", props=["C04"])
+@contract("bellows.ash.AshProtocol.ack_frame_received", props=["C04", "C02"])
 def _(c):
     c.self(ASH)
     c.arg("frame", AckFrameT)
@@ -336,7 +336,7 @@ def _(c):
     c.modifies()
 
 
-@contract("bellows.ash.AshProtocol.nak_frame_received", props=["C04", "C01"])
+@contract("bellows.ash.AshProtocol.nak_frame_received", props=["C04", "C01", "C02"])
 def _(c):
     c.self(ASH)
     c.arg("frame", NakFrameT)
@@ -350,7 +350,7 @@ def _(c):
     c.modifies("self._pending_data_frames.*")
 
 
-@contract("bellows.ash.AshProtocol.rst_frame_received", props=["C04"])
+@contract("bellows.ash.AshProtocol.rst_frame_received", props=["C04", "C02"])
 def _(c):
     c.self(ASH)
     c.arg("frame", RstFrameT)
@@ -358,7 +358,7 @@ def _(c):
     c.modifies("self._ncp_state", "self._ncp_reset_code")
 
 
-@contract("bellows.ash.AshProtocol.frame_received", props=["C04", "C01"])
+@contract("bellows.ash.AshProtocol.frame_received", props=["C04", "C01", "C02"])
 def _(c):
     c.self(ASH)
     c.cases(
@@ -635,7 +635,7 @@ for _p in ("C01", "C05"):
     _index.extra(_p)(_tx_k_is_one)
 
 
-@contract("bellows.ash.AshProtocol.send_reset", props=["C11", "C03"])
+@contract("bellows.ash.AshProtocol.send_reset", props=["C11", "C03", "C09"])
 def _(c):
     c.self(ASH)
     c.effect_name = "ash.send_reset"
